@@ -40,6 +40,7 @@ def refVerdict (p : Program) : String :=
         | none => "*"
       s!"m rterr {l} obs={obs}"
     | .error .unc => "nopanic"
+    | .error .mem => "any"     -- more memory than the machine has: excluded by the property
     | .error .fuel => "any"
 
 def runEval (line : String) : String :=
